@@ -85,6 +85,11 @@ pub fn fixed_programs() -> Vec<FixedProg> {
             lines: vec!["0 K=K+1: PRINT K;: IF K<3 THEN 0", head, "20 PRINT \"e\";Y;K"],
             replies: vec![],
         },
+        FixedProg {
+            name: "DATA used up, then one READ too many",
+            lines: vec![head, "20 READ A,B: PRINT A;B;", "30 E=1: PRINT \"x\";Y;", "40 READ C: PRINT C", "90 DATA 5,6"],
+            replies: vec![],
+        },
         // arrays the program dimensions only later
         FixedProg {
             name: "DIM after the first statements",
@@ -108,7 +113,11 @@ pub fn fixed_programs() -> Vec<FixedProg> {
     ]
 }
 
-pub const INSPECTIONS: [&str; 28] = [
+pub const INSPECTIONS: [&str; 30] = [
+    // a NEXT for a loop that is not open is refused and closes nothing; a READ that finds no item
+    // left (E is set once the DATA of the program that sets it has been used up) moves nothing
+    "NEXT Q9",
+    "IF E THEN READ Z9",
     // a FOR that is refused (no limit, an ill-typed limit, a failing start value) opens nothing and
     // closes nothing; a read of a name the program itself reads unassigned later on
     "FOR I=1 TO",
@@ -561,8 +570,21 @@ pub fn run(thorough: bool) -> Report {
                 if sset.is_empty() && !insp.is_empty() {
                     continue;
                 }
-                let (o, hist, _, c) = run_with_breaks(p, sset, insp);
+                let (mut o, hist, _, c) = run_with_breaks(p, sset, insp);
                 calls += c;
+                let mut reference = base[*pi].clone();
+                if insp.contains("READ") {
+                    // where a refused READ leaves the cursor of an exhausted DATA list is not
+                    // something a program can see: compared is what the program shows and does
+                    for st in [&mut o.final_state, &mut reference.final_state] {
+                        if let Some(f) = st.as_mut() {
+                            f.data_cursor = None;
+                        }
+                    }
+                }
+                let base_here = [reference];
+                let base = &base_here;
+                let pi = &0usize;
                 if o != base[*pi] {
                     let i = o.transcript.iter().zip(&base[*pi].transcript).position(|(a, b)| a != b);
                     out.push(Violation {
